@@ -79,6 +79,16 @@ def drive(ctx):
         y = mk_dt(UTCZ, i3_to_wall(sec_to_i3(s2, 0)), 0)
         ctx.emit("humanize", {"entry": ("format_diff", "diff_for_humans")[k % 2], "is_now": bool(k % 3 == 0) and k % 2 == 0, "absolute": bool(k % 5 == 0),
                               "locale": rnd.choice(locs)}, [x, y])
+    # two times of day, also within one second of each other (direction down to the microsecond)
+    for k in range(80 if q else 2000):
+        h, mi, sc = rnd.randrange(24), rnd.randrange(60), rnd.randrange(60)
+        u1, u2 = rnd.randrange(10 ** 6), rnd.randrange(10 ** 6)
+        t1 = {"k": "time", "w": [h, mi, sc, u1], "cls": "Time"}
+        if k % 2:
+            t2 = {"k": "time", "w": [h, mi, sc, u2], "cls": "Time"}                   # same second
+        else:
+            t2 = {"k": "time", "w": [rnd.randrange(24), rnd.randrange(60), rnd.randrange(60), u2], "cls": "Time"}
+        ctx.emit("humanize", {"entry": "time_diff_for_humans", "is_now": False, "absolute": bool(k % 5 == 0), "locale": rnd.choice(locs)}, [t1, t2])
     # in_words
     durs = [dict(y=1), dict(mo=2), dict(w=3), dict(d=4), dict(h=5), dict(mi=6), dict(s=7), dict(y=1, mo=1, w=1, d=1, h=1, mi=1, s=1),
             dict(y=2, mo=3, w=2, d=5, h=22, mi=59, s=59), dict(d=-3, h=-2), dict(w=-1), dict(s=0), dict(us=123456), dict(h=21, s=2),
@@ -91,3 +101,8 @@ def drive(ctx):
             n += 1
         for (unit, c, extra) in (pick(rnd, extras, 3) if q else extras):
             ctx.emit("in_words", {"entry": "interval", "locale": loc, "sep": cps(" ")}, [base, shifted(unit, c, extra)])
+        # intervals and durations shorter than a second, and empty ones
+        sub = mk_dt(UTCZ, [2020, 1, 1, 0, 0, 0, 300000], 0)
+        ctx.emit("in_words", {"entry": "interval", "locale": loc, "sep": cps(" ")}, [base, sub])
+        ctx.emit("in_words", {"entry": "interval", "locale": loc, "sep": cps(" ")}, [sub, base])
+        ctx.emit("in_words", {"entry": "interval", "locale": loc, "sep": cps(" ")}, [base, base])
